@@ -14,16 +14,22 @@ def winErr : WinErr → String
 /-- request: kind (0 char, 1 byte, 2 full), max, ctx, cluster byte lengths -/
 def windowsD (op : String) (args : List Nat) : Option String :=
   match op with
-  | "windows" => some <| match runP (do let k ← pNat; let m ← pNat; let c ← pNat; let _realisation ← pNat; let l ← pNats; pure (k, m, c, l)) args with
-      | some (k, m, c, lens) =>
-        if lens.any (fun x => x == 0) then reject else
-        let r := match k with
-          | 0 => charWindows lens m c
-          | 1 => byteWindows lens m c
-          | _ => if lens.isEmpty then .ok [emptyWin] else .ok (fullWindows lens)
-        match r with
-        | .ok ws => ok (eList eWin ws)
-        | .error e => winErr e
+  | "windows" => some <| match runP (do
+        let k ← pNat; let m ← pNat; let c ← pNat; let _realisation ← pNat; let l ← pNats
+        -- the observation: the windows (8 fields each) or an error kind
+        let obs ← pOpt (pList (do
+          let a ← pNat; let b ← pNat; let c ← pNat; let d ← pNat; let e ← pNat; let f ← pNat; let g ← pNat; let h ← pNat
+          pure ({ ctxStart := a, wStart := b, wEnd := c, ctxEnd := d, bCtxStart := e, bWStart := f, bWEnd := g, bCtxEnd := h } : Win)))
+        pure (k, m, c, l, obs)) args with
+      | some (k, m, c, lens, obs) =>
+        if lens.any (fun x => x == 0) || k > 2 then reject else
+        if lens.isEmpty then
+          -- the empty text: no open choice, the answer is the function model's
+          (match windowsModel k lens m c, obs with
+           | .ok ws, some o => if ws == o then "accept" else "refuse"
+           | .error _, none => "accept"
+           | _, _ => "refuse")
+        else if windowsAccept k lens m c obs then "accept" else "refuse"
       | none => reject
   | _ => none
 
